@@ -342,8 +342,21 @@ extern size_t gz_r;
 #define NT_K(z, t) (NT_EMPTY(z) ? NTR(z) : ((t) < TR(z, NS(z)).unix_time ? NS(z) : ((t) >= TR(z, NTR(z) - 1).unix_time ? NTR(z) : NS(z) + gz_i + 1)))
 #define TRANS_IS(z, trans, r) (FIELDS_EQ((trans)->to, TR(z, r).civil_sec) && OVALID((trans)->from) && OSEC((trans)->from) == OSEC(TR(z, r).prev_civil_sec) + 1)
 
+/* case split of the two proofs (exhaustive): NT_CASE = 2 * (row 0 is the sentinel) + (tp lies before every reportable row or the table has none / otherwise) */
+#if defined(NT_CASE) && NT_CASE == 0
+#define NT_CASE_REQUIRES(z, t) __CPROVER_requires(NS(z) == 0 && (NT_EMPTY(z) || (t) < TR(z, NS(z)).unix_time))
+#elif defined(NT_CASE) && NT_CASE == 1
+#define NT_CASE_REQUIRES(z, t) __CPROVER_requires(NS(z) == 0 && !(NT_EMPTY(z) || (t) < TR(z, NS(z)).unix_time))
+#elif defined(NT_CASE) && NT_CASE == 2
+#define NT_CASE_REQUIRES(z, t) __CPROVER_requires(NS(z) == 1 && (NT_EMPTY(z) || (t) < TR(z, NS(z)).unix_time))
+#elif defined(NT_CASE) && NT_CASE == 3
+#define NT_CASE_REQUIRES(z, t) __CPROVER_requires(NS(z) == 1 && !(NT_EMPTY(z) || (t) < TR(z, NS(z)).unix_time))
+#else
+#define NT_CASE_REQUIRES(z, t)
+#endif
 bool NextTransition(const TimeZoneInfo* self, time_point_s tp, civil_transition* trans)
 __CPROVER_requires(ZSHAPE256(self) && __CPROVER_is_fresh(trans, sizeof(civil_transition)) && !gz_extended)
+NT_CASE_REQUIRES(self, tp)
 __CPROVER_requires(gz_r < NTR(self) ? (WFI(self, gz_r) && MARGIN(self, gz_r)) : 1)
 /* instance of the order by unix_time: the reported row is not earlier than the first row after tp */
 __CPROVER_requires((NT_K(self, tp) < NTR(self) && NT_K(self, tp) <= gz_r && gz_r < NTR(self)) ? TR(self, NT_K(self, tp)).unix_time <= TR(self, gz_r).unix_time : 1)
